@@ -269,7 +269,8 @@ def main():
     for nm in missing_locked:
         print(f"MISSING-OBLIGATION property={prop} obligation={nm} (in obligations.lock.json, not generated from the current tree)")
 
-    proof_ok = (n_dis + sum(1 for o in obs if match_known(known, name=o.name) and o.status == "failed")) == len(obs) and not S.unsupported
+    all_accounted = (n_dis + sum(1 for o in obs if match_known(known, name=o.name) and o.status == "failed")) == len(obs) and not S.unsupported
+    proof_ok = all_accounted and n_dis == len(obs)
     level = "proof" if proof_ok else "other"
     samples = []
     for o in obs[:3] + [o for o in obs if o.kind == "ensures"][:3]:
@@ -293,7 +294,8 @@ def main():
             "known_findings_matched": {kid: names for kid, (k, names) in seen_known.items()},
             "bounded": standin.get("summary") if standin else None,
             "explanation": ("every obligation generated from the current /repo sources was discharged" if level == "proof" else
-                            "NOT a proof on this run: " + "; ".join([f"{len(violations)} failed obligations", f"{len(undecided)} undecided", f"{len(S.unsupported)} functions out of reach"])),
+                            (f"every obligation was discharged except those of the recorded known findings {sorted(seen_known)} (genuine defects of the tree, see known_findings.json); not a proof of the whole property" if all_accounted else
+                             "NOT a proof on this run: " + "; ".join([f"{len(violations)} failed obligations", f"{len(undecided)} undecided", f"{len(S.unsupported)} functions out of reach"]))),
             "evaluations": len(obs), "distinct_nontrivial": max(2, len({o.name for o in obs if not isinstance(o.goal, bool)})),
         },
         "assumptions": ASSUMPTIONS_COMMON + meta.get("assumptions", []),
